@@ -70,6 +70,13 @@ pub enum Req {
     AllowlistRemove,
     /// sign counterparty commitment 0 of channel 2 (refused while it is a stub)
     SignCp2,
+    /// sign counterparty commitment 1 of channel 4 (no HTLCs)
+    Sign4,
+    /// force close of channel 5: its holder commitment 0 is signed for broadcast
+    Close5,
+    /// force close of channel 1 at its initial commitment (three-channel scenarios, in which
+    /// channel 1 is not advanced)
+    Close1,
     /// counterparty commitment 2 of channel 1 with a new outgoing HTLC for the keysend hash
     PayA,
     /// counterparty commitment 1 of channel 4 with an outgoing HTLC for the same hash
@@ -87,6 +94,7 @@ struct Ctx {
     f: Funded,
     chain: SimChain,
     f4: Option<Funded>,
+    f5: Option<Funded>,
 }
 
 // shuttle runs every task as a coroutine on one OS thread, one at a time
@@ -100,12 +108,42 @@ fn wcfg() -> WorldCfg {
     c
 }
 
-fn build_ctx(prep: &[Req], two: bool) -> Ctx {
+fn needs_two(sc: &Scenario) -> u8 {
+    let all: Vec<Req> = sc.reqs.iter().cloned().chain(sc.then.iter().flatten().cloned()).collect();
+    if all.contains(&Req::Close1) {
+        3
+    } else if all.contains(&Req::Close5) {
+        2
+    } else if all.contains(&Req::PayB) || all.contains(&Req::Sign4) {
+        1
+    } else {
+        0
+    }
+}
+
+fn build_ctx(prep: &[Req], extra: u8) -> Ctx {
+    let two = extra >= 1;
     let w = World::new(wcfg());
     let mut chain = w.new_sim_chain();
     let b = make_block(&chain.tip().0, chain.height() + 1, 0, vec![]);
     assert!(w.connect(&mut chain, b, Delivery::Compact).is_ok());
-    let f = fund_channel(&w, 1, false, true);
+    // extra == 3: three channels (1, 4, 5) without HTLCs; channel 1 gets a holder commitment 1
+    // with another balance, so that "1 closed, 5 open" and "1 open, 5 closed" differ in a summed
+    // balance reply
+    let f = fund_channel(&w, 1, false, extra != 3);
+    if extra == 3 {
+        let c = Content { to_holder: CHANNEL_VALUE - 502_000, to_cp: 500_000, feerate: 1000, out: vec![], inc: vec![] };
+        let p1 = w.holder_point_raw(1, 1).unwrap();
+        let (sig, hs) = f.params.cp_sign_holder_commitment(&f.cp, 1, &p1, &c);
+        let r = w.with_chan(1, |ch| {
+            ch.validate_holder_commitment_tx_phase2(1, c.feerate, c.to_holder, c.to_cp, c.out_info(), c.inc_info(), &sig, &hs)?;
+            ch.revoke_previous_holder_commitment(1)
+        });
+        assert!(r.is_ok(), "light advance of channel 1: {}", r.tag());
+        let c0 = f.c0.clone();
+        let p0 = f.cp.point(0);
+        assert!(w.with_chan(1, |ch| ch.sign_counterparty_commitment_tx_phase2(&p0, 0, c0.feerate, c0.to_holder, c0.to_cp, c0.inc_info(), c0.out_info())).is_ok());
+    }
     let b = make_block(&chain.tip().0, chain.height() + 1, 0, vec![f.funding_tx.clone()]);
     assert!(w.connect(&mut chain, b, Delivery::Compact).is_ok());
     assert!(w.new_channel(2).is_ok());
@@ -118,7 +156,16 @@ fn build_ctx(prep: &[Req], two: bool) -> Ctx {
     } else {
         None
     };
-    let ctx = Ctx { w, f, chain, f4 };
+    let f5 = if extra >= 2 {
+        let f5 = fund_channel(&w, 5, false, false);
+        let c0 = f5.c0.clone();
+        let p0 = f5.cp.point(0);
+        assert!(w.with_chan(5, |ch| ch.sign_counterparty_commitment_tx_phase2(&p0, 0, c0.feerate, c0.to_holder, c0.to_cp, c0.inc_info(), c0.out_info())).is_ok());
+        Some(f5)
+    } else {
+        None
+    };
+    let ctx = Ctx { w, f, chain, f4, f5 };
     for r in prep {
         let t = exec(&ctx, *r);
         assert!(t.starts_with("ok"), "scenario preparation step {:?} refused: {}", r, t);
@@ -234,6 +281,17 @@ fn exec(c: &Ctx, r: Req) -> String {
             let addr = node.get_native_address(&wallet_path(77)).unwrap().to_string();
             tag(call(move || node.remove_allowlist(&[addr.clone()]).map_err(|e| status_kind(&e))))
         }
+        Req::Sign4 => {
+            let f4 = c.f4.as_ref().expect("two-channel scenario");
+            let p = f4.cp.point(1);
+            let cc = f4.c0.clone();
+            tag(w.with_chan(4, |ch| ch.sign_counterparty_commitment_tx_phase2(&p, 1, cc.feerate, cc.to_holder, cc.to_cp, cc.inc_info(), cc.out_info())))
+        }
+        Req::Close5 => {
+            let _ = c.f5.as_ref().expect("three-channel scenario");
+            tag(w.with_chan(5, |ch| ch.sign_holder_commitment_tx_phase2(0)))
+        }
+        Req::Close1 => tag(w.with_chan(1, |ch| ch.sign_holder_commitment_tx_phase2(1))),
         Req::SignCp2 => {
             let p = Cp::new(120).point(0);
             let c0 = f.c0.clone();
@@ -262,12 +320,49 @@ impl<T> MapOk for Outcome<T> {
 #[derive(Clone, Debug, Serialize, Deserialize)]
 pub struct Scenario {
     pub prep: Vec<Req>,
+    /// one thread per entry
     pub reqs: Vec<Req>,
+    /// a second request of the same thread, issued when the first has returned (empty = none)
+    #[serde(default)]
+    pub then: Vec<Option<Req>>,
+}
+
+impl Scenario {
+    fn steps(&self, i: usize) -> Vec<Req> {
+        let mut v = vec![self.reqs[i]];
+        if let Some(Some(r)) = self.then.get(i) {
+            v.push(*r);
+        }
+        v
+    }
+    /// every sequential order of all requests that keeps each thread's own order: a list of
+    /// thread indices, a thread with two requests appearing twice
+    fn orders(&self) -> Vec<Vec<usize>> {
+        fn rec(left: &mut Vec<usize>, cur: &mut Vec<usize>, out: &mut Vec<Vec<usize>>) {
+            if left.iter().all(|x| *x == 0) {
+                out.push(cur.clone());
+                return;
+            }
+            for i in 0..left.len() {
+                if left[i] > 0 {
+                    left[i] -= 1;
+                    cur.push(i);
+                    rec(left, cur, out);
+                    cur.pop();
+                    left[i] += 1;
+                }
+            }
+        }
+        let mut left: Vec<usize> = (0..self.reqs.len()).map(|i| self.steps(i).len()).collect();
+        let mut out = vec![];
+        rec(&mut left, &mut vec![], &mut out);
+        out
+    }
 }
 
 impl Scenario {
     pub fn name(&self) -> String {
-        let mut n: Vec<String> = self.reqs.iter().map(|r| r.name()).collect();
+        let mut n: Vec<String> = (0..self.reqs.len()).map(|i| self.steps(i).iter().map(|r| r.name()).collect::<Vec<_>>().join(">")).collect();
         n.sort();
         let p = if self.prep.is_empty() { String::new() } else { format!("[after {}]", self.prep.iter().map(|r| r.name()).collect::<Vec<_>>().join(","))};
         format!("{}{}", n.join("|"), p)
@@ -280,28 +375,34 @@ pub fn scenarios(tier: Tier) -> Vec<Scenario> {
     let mut v = vec![];
     for i in 0..kinds.len() {
         for j in i + 1..kinds.len() {
-            v.push(Scenario { prep: vec![], reqs: vec![kinds[i], kinds[j]] });
+            v.push(Scenario { prep: vec![], reqs: vec![kinds[i], kinds[j]], then: vec![] });
         }
     }
     // same-kind pairs that touch the same objects
     for k in [Balance, Heartbeat, Forget1, Keysend, SignCp, ValidateRevoke, Setup2, New3, AddBlockEmpty, Allowlist, CheckOnchain, SignOnchain] {
-        v.push(Scenario { prep: vec![], reqs: vec![k, k] });
+        v.push(Scenario { prep: vec![], reqs: vec![k, k], then: vec![] });
     }
     // the C01 / C02 / C03 races on one channel
-    v.push(Scenario { prep: vec![], reqs: vec![Validate, Revoke] });
-    v.push(Scenario { prep: vec![Validate], reqs: vec![SignHolder1, Revoke] });
-    v.push(Scenario { prep: vec![], reqs: vec![SignHolder1, ValidateRevoke] });
-    v.push(Scenario { prep: vec![], reqs: vec![SignCp, CpRevoke] });
-    v.push(Scenario { prep: vec![SignCp], reqs: vec![CpRevoke, Forget1] });
+    v.push(Scenario { prep: vec![], reqs: vec![Validate, Revoke], then: vec![] });
+    v.push(Scenario { prep: vec![Validate], reqs: vec![SignHolder1, Revoke], then: vec![] });
+    v.push(Scenario { prep: vec![], reqs: vec![SignHolder1, ValidateRevoke], then: vec![] });
+    v.push(Scenario { prep: vec![], reqs: vec![SignCp, CpRevoke], then: vec![] });
+    v.push(Scenario { prep: vec![SignCp], reqs: vec![CpRevoke, Forget1], then: vec![] });
     // two updates of the allowlist (memory and store must end up in the same order)
-    v.push(Scenario { prep: vec![], reqs: vec![Allowlist, AllowlistB] });
-    v.push(Scenario { prep: vec![Allowlist], reqs: vec![AllowlistRemove, AllowlistB] });
+    v.push(Scenario { prep: vec![], reqs: vec![Allowlist, AllowlistB], then: vec![] });
+    v.push(Scenario { prep: vec![Allowlist], reqs: vec![AllowlistRemove, AllowlistB], then: vec![] });
     // a channel is used while it is being set up
-    v.push(Scenario { prep: vec![], reqs: vec![Setup2, SignCp2] });
+    v.push(Scenario { prep: vec![], reqs: vec![Setup2, SignCp2], then: vec![] });
+    // a balance query next to a thread that closes the first and then the last channel of the
+    // map, while a request on the middle one is in progress (and the mirror image)
+    v.push(Scenario { prep: vec![], reqs: vec![Sign4, Balance, Close1], then: vec![None, None, Some(Close5)] });
+    if tier == Tier::Thorough {
+        v.push(Scenario { prep: vec![], reqs: vec![Sign4, Balance, Close5], then: vec![None, None, Some(Close1)] });
+    }
     // one approved payment, two channels each adding an outgoing HTLC for it
-    v.push(Scenario { prep: vec![Keysend], reqs: vec![PayA, PayB] });
+    v.push(Scenario { prep: vec![Keysend], reqs: vec![PayA, PayB], then: vec![] });
     for k in [SignCp, ValidateRevoke, Forget1, Balance, Heartbeat] {
-        v.push(Scenario { prep: vec![], reqs: vec![AddBlockCloseStreamed, k] });
+        v.push(Scenario { prep: vec![], reqs: vec![AddBlockCloseStreamed, k], then: vec![] });
     }
     if tier == Tier::Thorough {
         for t in [
@@ -314,7 +415,7 @@ pub fn scenarios(tier: Tier) -> Vec<Scenario> {
             [SignCp, ValidateRevoke, Keysend],
             [SignOnchain, New3, AddBlockEmpty],
         ] {
-            v.push(Scenario { prep: vec![], reqs: t.to_vec() });
+            v.push(Scenario { prep: vec![], reqs: t.to_vec(), then: vec![] });
         }
     }
     v
@@ -540,10 +641,18 @@ fn run_sequential_full(sc: &Scenario, order: &[usize]) -> Result<(Obs, Value), S
     let runner = shuttle::Runner::new(Sched(dfs.clone()), shuttle_config());
     let r = catch(move || {
         runner.run(move || {
-            let ctx = build_ctx(&sc2.prep, sc2.reqs.contains(&Req::PayB));
+            let ctx = build_ctx(&sc2.prep, needs_two(&sc2));
             let mut replies = vec![String::new(); sc2.reqs.len()];
+            let mut done = vec![0usize; sc2.reqs.len()];
             for &i in &order2 {
-                replies[i] = exec(&ctx, sc2.reqs[i]);
+                let r = sc2.steps(i)[done[i]];
+                done[i] += 1;
+                let t = exec(&ctx, r);
+                if replies[i].is_empty() {
+                    replies[i] = t;
+                } else {
+                    replies[i] = format!("{};{}", replies[i], t);
+                }
             }
             let snap = ctx.w.snapshot();
             let state = fp(&snap);
@@ -561,7 +670,7 @@ pub fn run_scenario(sc: &Scenario, bound: usize, wall_s: f64) -> ScenResult {
     let mut res = ScenResult { name: sc.name(), bound, by_preemptions: vec![0; bound + 1], ..Default::default() };
     // sequential reference outcomes
     let mut seq: BTreeSet<Obs> = BTreeSet::new();
-    for p in permutations(sc.reqs.len()) {
+    for p in sc.orders() {
         match run_sequential(sc, &p) {
             Ok(o) => {
                 // determinism self-test: the same order twice gives the same observation
@@ -629,19 +738,20 @@ pub fn run_scenario(sc: &Scenario, bound: usize, wall_s: f64) -> ScenResult {
         let runner = shuttle::Runner::new(Budget(dfs2, tstart, deadline), shuttle_config());
         let r = catch(move || {
             runner.run(move || {
-                let ctx = StdArc::new(Shared(build_ctx(&sc2.prep, sc2.reqs.contains(&Req::PayB))));
+                let ctx = StdArc::new(Shared(build_ctx(&sc2.prep, needs_two(&sc2))));
                 let replies: StdArc<StdMutex<Vec<String>>> = StdArc::new(StdMutex::new(vec![String::new(); sc2.reqs.len()]));
                 let mut hs = vec![];
                 for (i, r) in sc2.reqs.iter().enumerate() {
                     let ctx = ctx.clone();
                     let replies = replies.clone();
                     let r = *r;
+                    let steps = sc2.steps(i);
                     hs.push(
                         shuttle::thread::Builder::new()
                             .name(format!("{}#{}", r.name(), i))
                             .stack_size(4 << 20)
                             .spawn(move || {
-                                let t = exec(&ctx.0, r);
+                                let t = steps.iter().map(|r| exec(&ctx.0, *r)).collect::<Vec<_>>().join(";");
                                 replies.lock().unwrap()[i] = t;
                             })
                             .unwrap(),
@@ -809,15 +919,16 @@ pub fn replay(v: &Value) {
         let out2 = out.clone();
         let r = catch(move || {
             runner.run(move || {
-                let ctx = StdArc::new(Shared(build_ctx(&sc2.prep, sc2.reqs.contains(&Req::PayB))));
+                let ctx = StdArc::new(Shared(build_ctx(&sc2.prep, needs_two(&sc2))));
                 let replies: StdArc<StdMutex<Vec<String>>> = StdArc::new(StdMutex::new(vec![String::new(); sc2.reqs.len()]));
                 let mut hs = vec![];
                 for (i, r) in sc2.reqs.iter().enumerate() {
                     let ctx = ctx.clone();
                     let replies = replies.clone();
                     let r = *r;
+                    let steps = sc2.steps(i);
                     hs.push(shuttle::thread::Builder::new().name(format!("{}#{}", r.name(), i)).stack_size(4 << 20).spawn(move || {
-                        let t = exec(&ctx.0, r);
+                        let t = steps.iter().map(|r| exec(&ctx.0, *r)).collect::<Vec<_>>().join(";");
                         replies.lock().unwrap()[i] = t;
                     }).unwrap());
                 }
@@ -835,7 +946,7 @@ pub fn replay(v: &Value) {
                 println!("round {}: completed: {:?}", round, g.as_ref().map(|x| &x.0));
                 if round == 1 {
                     if let Some((_, snap)) = g.as_ref() {
-                        for p in permutations(sc.reqs.len()) {
+                        for p in sc.orders() {
                             if let Ok((o, ssnap)) = run_sequential_full(&sc, &p) {
                                 println!("sequential order {:?}: {:?}", p, o);
                                 println!("   first difference (sequential -> concurrent): {:?}", json_diff(&ssnap, snap));
@@ -902,7 +1013,7 @@ pub fn main(tier: Tier) -> i32 {
     let t0 = Instant::now();
     let plan: Vec<(usize, f64, f64)> = match tier {
         // (bound, per-scenario wall, deadline from the start)
-        Tier::Quick => vec![(1, 30.0, 40.0), (2, 30.0, 52.0)],
+        Tier::Quick => vec![(1, 40.0, 44.0), (2, 30.0, 56.0)],
         Tier::Thorough => vec![(1, 300.0, 600.0), (2, 1500.0, 2400.0), (3, 900.0, 3300.0)],
     };
     let maxb0 = plan.iter().map(|p| p.0).max().unwrap();
